@@ -63,7 +63,11 @@ CHECKS = [
           "ignores zero-weight responses, is unique when the weighted design has full rank, and design and weights are invariant under a common "
           "shift/rescaling of sampling points, query point and bandwidth. Tie: LocalPolynomial.predict (constructor- and setter-configured) in "
           "1-D and 2-D for the four kernels, degrees 0..3, five domains: each estimate is verified exactly in Q as the intercept of a "
-          "solution of the model's local normal equations; monitors for linearity, reproduction, locality, invariance, kernel values.",
+          "solution of the model's local normal equations; monitors for linearity, reproduction, locality, invariance, kernel values, default "
+          "query set with tied observations. Translator: the four kernel functions and the name->function dispatch are translated from "
+          "local_polynomial.py into Gen/Kernels.v on every run (fail-closed ast translator); 7 theorems prove the translated functions equal "
+          "the model's kernels composed with |.| (non-negative, compactly supported, even), and the translated kernels are evaluated in Q "
+          "against the running functions.",
   "note": STD_NOTE + " Gaussian weights and 2-D Euclidean norms enter the executable model as checked oracle values; local systems with "
           "condition number > 1e8 (scaled design) are skipped and counted; the local solution is verified as a certificate."},
  {"id": "C07",
@@ -83,8 +87,8 @@ CHECKS = [
           "the code builds it (upper triangle, symmetrise, halve diagonal) equals the matrix of inner products, is symmetric, has squared norms "
           "on its diagonal, its quadratic form is the squared norm of the combination (PSD), rows sum to zero for centred curves, re-indexing "
           "equivariance, sums of PSD component matrices are PSD. Tie: _integration_weights, _integrate (1-D/2-D/3-D), _inner_product, "
-          "DenseFunctionalData.norm/inner_product evaluated against the exact Q model; monitors for Simpson linearity, multivariate and basis data.",
-  "note": STD_NOTE + " Simpson's rule is not modelled (linearity monitored only). Basis-expansion Gram matrices are monitored, not modelled."},
+          "DenseFunctionalData.norm/inner_product evaluated against the exact Q model; Simpson's rule (scipy's composite rule for unequal spacings, Model/Simpson.v): linear, exact for quadratics on every strictly increasing grid with >= 3 points, factorises over product grids; _integrate(method='simpson') compared exactly with the model in 1-D and 2-D; monitors for multivariate and basis data.",
+  "note": STD_NOTE + " Basis-expansion Gram matrices are monitored, not modelled."},
  {"id": "C09",
   "text": "Theorems (all datasets of n rows on m points): the mean is the pointwise average and is invariant under permutation of the "
           "observations; the covariance built from the centred columns has entries <col_s,col_t>/(n-1), is symmetric and PSD (quadratic form = "
